@@ -198,7 +198,13 @@ def run_prerequisite(ctx: Ctx, src_prop: str, allow: T.Iterable[str], alias: str
         # imported rule was reached and the obligation recorded last belongs to another rule.  Otherwise an imported rule
         # may be undecided (or half decided) and this check cannot claim it.
         if sub.kept == 0 or sub.last_rule in sub._allow or not sub._allow <= sub.reached:
-            raise
+            # The importing check goes on with its own rules (a finding of theirs stands); without a finding the run ends
+            # as a refusal with this message.
+            import sys as _sys
+            deferred = getattr(root, "deferred_refusals", None)
+            if deferred is None:
+                raise
+            deferred.append(f"[{src_prop} imported as {alias}] {_sys.exc_info()[1]}")
     finally:
         _PREREQ_ACTIVE.pop()
     return sub.kept
@@ -316,8 +322,11 @@ def main(argv: T.List[str]) -> int:
         mod = importlib.import_module(f"checks.{prop.lower()}")
         ctx = Ctx(prop, args.repo, args.tier, seed)
         stopped_early = None
+        ctx.deferred_refusals = []          # imported rule sets that gave up (run_prerequisite)
         try:
             mod.run(ctx)
+            if ctx.deferred_refusals:
+                raise AnalysisError(ctx.deferred_refusals[0])
         except AnalysisError as ex_run:
             # a rule gave up on an unrecognised shape.  Findings that earlier rules had already decided stand (each names
             # a construct that violates its rule); without any, the run is a refusal (exit 2).
